@@ -73,7 +73,11 @@ func harness_C02_crash() {
 		}
 		hdr := textproto.Header{}
 		hdr.Add("Subject", "c02")
-		if err := d.Body(nil, hdr, buffer.MemoryBuffer{Slice: []byte("body\r\n")}); err != nil {
+		bodyBytes := []byte("body\r\n")
+		if verifParam("emptybody", 0) == 1 && nondetBool("emptyBody") {
+			bodyBytes = []byte{} // a message that consists of a header only
+		}
+		if err := d.Body(nil, hdr, buffer.MemoryBuffer{Slice: bodyBytes}); err != nil {
 			verifStop()
 		}
 		if nondetBool("abortInstead") {
@@ -106,14 +110,18 @@ func harness_C02_crash() {
 		}
 	}
 	if !crashed {
+		// no crash within the bound: the process is stopped in an orderly way after
+		// the last operation (a stop is a restart point like any other)
 		verifCover("C02.no-crash-within-bound")
-		return
+		if verifParam("stop", 1) == 0 {
+			return
+		}
 	}
 	attemptsBegun := len(tgt.deliveries)
 	_ = attemptsStarted
 
 	// ---- what survives ----
-	if strong {
+	if strong && crashed {
 		// every file's not-yet-fsynced content may be lost
 		for name, f := range fsm.files {
 			if !f.synced && nondetBool("lost."+name) {
